@@ -231,8 +231,9 @@ def pattern_instances(tier):
 
 def compose_instances(tier):
     out = []
-    names = [("compose_a0", 0), ("compose_a1", 1), ("compose_a2", 2), ("match_list_a1", 1)] if tier == "quick" else \
-            [("compose_a0", 0), ("compose_a1", 1), ("compose_a2", 2), ("compose_a3", 3), ("match_list_a1", 1), ("match_list_a2", 2)]
+    # (match_list_a1 / _a2 were calibrated and dropped: > 25 min each)
+    names = [("compose_a0", 0), ("compose_a1", 1), ("compose_a2", 2)] if tier == "quick" else \
+            [("compose_a0", 0), ("compose_a1", 1), ("compose_a2", 2), ("compose_a3", 3)]
     for n, a in names:
         i = Inst(n, 10, None, ["C15"], {"atoms": a, "kinds": "symbolic", "polarity": "symbolic", "per-atom outcomes and scores": "symbolic (stub table)",
                                         "inputs": 3 if n.startswith("match_list") else 1}, None)
@@ -248,7 +249,8 @@ def utf32_instances(tier):
     names = [("views_ascii_l3", 3), ("views_unicode_l3", 3), ("views_unicode_l4", 4)] if tier == "quick" else \
             [("convert_ascii_l2", 2), ("convert_ascii_l3", 3), ("convert_ascii_l4", 4), ("views_ascii_l3", 3), ("views_unicode_l3", 3), ("views_unicode_l4", 4)]
     for n, l in names:
-        out.append(Inst(n, 12, None, ["C17"], {"L": l, "content": "symbolic ASCII bytes (all CR/LF arrangements)" if "ascii" in n else "symbolic scalars", "ranges": "symbolic valid ranges"}, None))
+        # slice equality on [char] is a byte-wise memcmp: 4 * L + 1 iterations
+        out.append(Inst(n, 4 * l + 3, None, ["C17"], {"L": l, "content": "symbolic ASCII bytes (all CR/LF arrangements)" if "ascii" in n else "symbolic scalars", "ranges": "symbolic valid ranges"}, None))
     return out
 
 
